@@ -64,6 +64,13 @@ type Case struct {
 	// TwinChain: the signer uses a re-issued twin of the usual chain: same subjects, same serial
 	// numbers, other keys (the annotations speak about the certificates actually used)
 	TwinChain bool `json:"twinChain,omitempty"`
+	// KeySpec: the signer's key is of another kind than the default P-256 (its signature
+	// algorithm then uses another hash than SHA-256; the thumbprints are SHA-256 all the same)
+	KeySpec string `json:"keySpec,omitempty"`
+	// ElsewhereAlg / ElsewhereForm (Ref digest-elsewhere): the digest reference that the
+	// repository resolves to a different digest uses this algorithm and this spelling
+	ElsewhereAlg  string `json:"elsewhereAlg,omitempty"`  // "" (sha256) sha384 sha512
+	ElsewhereForm string `json:"elsewhereForm,omitempty"` // "" bare digest, "repo@digest", "repo:tag@digest"
 }
 
 var (
@@ -84,11 +91,24 @@ var twin *pki.Chain
 // chainOf is the chain the case's signer uses.
 func chainOf(c *Case) *pki.Chain {
 	theChain()
+	if c.KeySpec != "" {
+		specMu.Lock()
+		defer specMu.Unlock()
+		if specChains[c.KeySpec] == nil {
+			specChains[c.KeySpec] = pki.NewChain(pki.ChainOpts{Intermediates: 1, Name: "c11 " + c.KeySpec, LeafKey: pki.Key(c.KeySpec, 0)})
+		}
+		return specChains[c.KeySpec]
+	}
 	if c.TwinChain {
 		return twin
 	}
 	return chain
 }
+
+var (
+	specMu     sync.Mutex
+	specChains = map[string]*pki.Chain{}
+)
 
 // spySigner wraps the real local signer and records what it was asked to sign.
 type spySigner struct {
@@ -259,7 +279,7 @@ func run(c *Case) (string, string) {
 		if strings.HasPrefix(c.PluginSigner, "envelope") {
 			caps = []pf.Capability{pf.CapabilityEnvelopeGenerator}
 		}
-		ps, err := signer.NewPluginSigner(&mocks.HonestSignPlugin{Caps: caps, Chain: ch, KeySpec: "EC-256", DropAnnotations: c.PluginSigner == "envelope-drops-annotations"}, "key-1", map[string]string{"signer-level": "configuration", "k": "signer"})
+		ps, err := signer.NewPluginSigner(&mocks.HonestSignPlugin{Caps: caps, Chain: ch, KeySpec: keySpecOf(c), DropAnnotations: c.PluginSigner == "envelope-drops-annotations"}, "key-1", map[string]string{"signer-level": "configuration", "k": "signer"})
 		if err != nil {
 			return "harness", err.Error()
 		}
@@ -333,7 +353,8 @@ func run(c *Case) (string, string) {
 		if c.Repo != "scripted" {
 			return "harness", "digest-elsewhere needs the scripted repository"
 		}
-		reference = digest.FromString("c11 dangling").String()
+		alg := map[string]digest.Algorithm{"": digest.SHA256, "sha384": digest.SHA384, "sha512": digest.SHA512}[c.ElsewhereAlg]
+		reference = map[string]string{"": "", "repo@digest": "registry.example/c11/repo@", "repo:tag@digest": "registry.example/c11/repo:v1@"}[c.ElsewhereForm] + alg.FromString("c11 dangling").String()
 	}
 	refuse := ""
 	switch {
@@ -577,6 +598,13 @@ func TestC11_Sequences(t *testing.T) {
 		if c.Ref == "digest-elsewhere" && c.Repo != "scripted" {
 			c.Ref = "tag"
 		}
+		if c.Ref == "digest-elsewhere" {
+			c.ElsewhereAlg = rp.Pick(rt, "elsewhereAlg", "", "sha384", "sha512", "sha512")
+			c.ElsewhereForm = rp.Pick(rt, "elsewhereForm", "", "", "repo@digest", "repo:tag@digest")
+		}
+		if !c.TwinChain {
+			c.KeySpec = rp.Pick(rt, "keySpec", "", "EC-384", "EC-521", "RSA-3072")
+		}
 		if rapid.Bool().Draw(rt, "pluginConfig") {
 			c.PluginCfg = map[string]string{"k": "v"}
 		}
@@ -586,6 +614,12 @@ func TestC11_Sequences(t *testing.T) {
 		}
 		if c.Ref == "digest-elsewhere" {
 			cl = append(cl, "ref=digest-mismatch")
+			if c.ElsewhereAlg != "" {
+				cl = append(cl, "ref=digest-mismatch-other-algorithm")
+			}
+		}
+		if c.KeySpec != "" {
+			cl = append(cl, "signing-key-with-other-hash-than-sha256")
 		}
 		if len(c.ArtAnn) > 0 {
 			cl = append(cl, "artifact-annotations")
@@ -611,4 +645,11 @@ func TestC11_Sequences(t *testing.T) {
 			rec.Failf(rt, key, c, "%s", msg)
 		}
 	})
+}
+
+func keySpecOf(c *Case) string {
+	if c.KeySpec != "" {
+		return c.KeySpec
+	}
+	return "EC-256"
 }
